@@ -26,6 +26,8 @@ pub fn st_of(s: Status) -> St {
         Status::Filled => St::Filled,
         Status::Cancelled => St::Cancelled,
         Status::Rejected => St::Rejected,
+        #[allow(unreachable_patterns)]
+        _ => St::Other,
     }
 }
 
